@@ -2,7 +2,10 @@ module gosym
 
 go 1.24.7
 
-require golang.org/x/tools v0.39.0
+require (
+	golang.org/x/tools v0.39.0
+	github.com/titanous/json5 v1.0.0
+)
 
 require (
 	golang.org/x/mod v0.30.0 // indirect
